@@ -25,6 +25,8 @@ class _RmatsParse(Contract):
         st = types.SimpleNamespace(yielded=[])
         st.tab = T.Table(I, 23, 'rMATS_table')
         st.args = [OpaqueStr(['events.txt']), self.event]
+        if T.first_loop_kind(I, self.path, self.qualname) != 'for':
+            raise Unsupported('the reader is not written as `for line in handle` (this contract follows that form)')
         self._cur = st
         return st
 
